@@ -628,9 +628,9 @@ NOT_CLAIMED = {}
 
 # ---- C08 texts after package quotesim (notes/status_quotesim.md) ----
 PROPS["C08"]['claim'] = "Partial. PROVED (kernel-checked, Lean 4): (1) line level, for EVERY tab-free line and start column, over the model of goldmark's line recognisers tied by component linerec: marker consumption of blockquoteParser.process and column invariance of every offset-taking recogniser. (2) block level, over the executable model GM.Model.Blocks of parseBlocks/openBlocks/closeBlocks and the ten default block parsers (tied to the real parser by component blocks), by a forward SIMULATION between the block phase on D and on '> '-prefixed D (GM/Proof/QuoteSim*.lean): from related states (same open-block stack with one Blockquote at the bottom, node stores equal up to the extra node and segments moved by the markers in front of their line, reader shifted, same context keys) the one-line step of Open of all ten parsers, Continue of all ten (code / HTML block when there is a current line, fenced code / list item under explicit side conditions), Close of all ten (paragraph / setext on a node that is not raw; listParser.Close given that the HasBlankPreviousLines flags it reads agree in the two runs - FlagsOK, PROVED for reachable states of sources without a blank line: quote_flags_equal) and of the driver (closeBlocks, openBlocks with its goto-retry loop, RequireParagraph path and contract monitor, the per-line loop) ends in related states; on every line the Blockquote consumes exactly '> '. WHOLE RUNS, UNCONDITIONALLY (quote_prefix_simulation_nolist / _noitems, _nofinalnl, _class, quote_prefix_run): for every D without tab/CR that does not end with a space (the last line may or may not end with a line feed) and in which NO POSITION STARTS A LIST ITEM (nowhere a bullet - * + or a number of at most nine digits with . or ) that is followed by a space, a tab, a line end or the end of the source; digits, hyphens, emphasis stars are allowed; the list parsers are tried and decline in both runs), both block phases end normally and the tree of prefixed D is Document[Blockquote[tree of D, segments moved]] (GM.Props.Blocks.QuotePrefixSimulation). Nothing about the original run is assumed any more: it ends normally (GM.Props.Blocks.no_panic), reads every line (nonblank_line_opens_block), its open blocks have the kind their parser builds, its Document has no lines and is nobody's child, it builds no List/ListItem node (the list parsers decline: listOpen_declines, listItemOpen_declines) and stores no empty segment (original_run_well_shaped; non-raw blocks by GM.Props.Wf0.inline_segments_nonempty). WITH LISTS (quote_prefix_simulation_lists, quote_prefix_run_lists; all ten parsers simulated in both runs, no parser 'tried and declining'): the same conclusion for every D without tab/CR that does not end with a space and has NO BLANK LINE - bullet and ordered lists, nested lists, lists inside block quotes, items interrupted by other blocks, and the thematic breaks and hyphens (---, ***, a - b) that NoItem excludes. There the blank-line statistics of the original run at level i and of the prefixed run at level i+1 answer every isBlankLine question alike (GM/Proof/QuoteSimStats.lean), the only unshifted openBlocks calls (children of the Document) get the same flag too, so every node but the Document has the same HasBlankPreviousLines flag in both stores (NodeRel.blank); listItemParser.Continue's precondition (the block below an open ListItem is its parent List, IndentPosition only asked for an indentation that is there) comes from the no-panic proof's invariant of the original run in the middle of a pass (Sh.MidA / StableL), threaded through the per-line loop. WITH LISTS AND BLANK LINES (quote_prefix_simulation_lists_blank, quote_prefix_run_lists_blank): the same conclusion for every D without tab/CR that does not end with a space and in which no position starts a setext heading underline (NoBar: no rest of a line consists of '=' only or of '-' only, up to trailing spaces; the setext heading parser is tried and declines) - loose and tight lists, any block after blank lines. There the flags of the two runs really DIFFER (original true, prefixed false) on children of the Document opened after a blank line and on the chain of first children opened in the same openBlocks call; the simulation carries the store relation FE 'equal flags on every child but the first of every node but the Document' (exactly what listParser.Close and the dump read), kept across every parser call as a unit from unary facts of both runs and across the driver's SetBlankPreviousLines / AppendChild. SEARCHED, not proved: documents that have a setext underline pattern AND a blank line AND a list item position (setextHeadingParser.Close copies the paragraph's flag to the heading while the heading stands behind it; needs the invariant 'the heading is the temporary paragraph's next sibling'), a last line without line feed that ends with a space (driver oracle `blocks quotesim` on every tab/CR-free source), and C08 on HTML through the inline phase and renderer (metamorphic component quote: Convert(prefix^n D) = wrap^n(Convert D))."
-PROPS["C08"]['note'] = "Trusted: Lean kernel (+ propext, Classical.choice, Quot.sound); the models GM.Model.LineRec / GM.Model.Blocks and their ties (components linerec, blocks: exhaustive small scopes + corpora, 0 disagreements); the hook file; the harness. Lists: proved for sources without a blank line (any setext underline allowed) and for sources WITH blank lines that have no setext underline pattern (NoBar). With blank lines the flags of the two runs differ on children of the Document opened after a blank line (original: true, prefixed: false - its Blockquote's statistics entry for the previous line is not blank, parser.go:1099) and on the chain of first children opened in the same openBlocks call; no reader looks at those, and the relation FE says exactly that. NOT proved: FE across setextHeadingParser.Close (it copies a flag), hence documents with setext underline patterns, blank lines and list item positions together. 'The parent list just answered Continue' for listItemParser.Continue IS proved (from the no-panic invariants, for every source); a last line without line feed that ends with a space (Advance(-1) in fencedCodeBlockParser.Continue); inline phase and renderer. The driver oracle `blocks quotesimhyp` (the former assumptions of the whole-run theorem, evaluated on every class source) has nothing left to assume for the class: all of it is proved (GM.Props.C08.original_run_well_shaped, quote_prefix_run); it is KEPT as a regression oracle of the model (a failure would mean the executable model and the proved statements have diverged)."
+PROPS["C08"]['note'] = "Trusted: Lean kernel (+ propext, Classical.choice, Quot.sound); the models GM.Model.LineRec / GM.Model.Blocks and their ties (components linerec, blocks: exhaustive small scopes + corpora, 0 disagreements); the hook file; the harness. Lists: proved for sources without a blank line (any setext underline allowed) and for sources WITH blank lines that have no setext underline pattern (NoBar). With blank lines the flags of the two runs differ on children of the Document opened after a blank line (original: true, prefixed: false - its Blockquote's statistics entry for the previous line is not blank, parser.go:1099) and on the chain of first children opened in the same openBlocks call; no reader looks at those, and the relation FE says exactly that. NOT proved: FE across setextHeadingParser.Close in whole runs (it copies a flag), hence documents with setext underline patterns, blank lines and list item positions together; PROVED as a unit lemma under the one missing unary invariant of the original run 'the heading is the temporary paragraph's next sibling' (GM/Proof/QuoteSimFE6.lean: fe_setextClose, fe_bpClose_setext, ADJ) - establishing and keeping that invariant from AppendChild to Close needs the last-child invariant LK of GM.Proof.BlocksTNP20-26 carried through the simulation's walk (notes/status_quotesim.md). 'The parent list just answered Continue' for listItemParser.Continue IS proved (from the no-panic invariants, for every source); a last line without line feed that ends with a space (Advance(-1) in fencedCodeBlockParser.Continue); inline phase and renderer. The driver oracle `blocks quotesimhyp` (the former assumptions of the whole-run theorem, evaluated on every class source) has nothing left to assume for the class: all of it is proved (GM.Props.C08.original_run_well_shaped, quote_prefix_run); it is KEPT as a regression oracle of the model (a failure would mean the executable model and the proved statements have diverged)."
 PROPS["C08"]['technique'] = 'Lean 4: forward simulation between two runs of the executable block-phase model (relational Hoare calculus S2, per-parser and driver lemmas, induction over lines) + line-level theorems; correspondence ties; Lean-defined oracles; metamorphic search'
-PROPS["C08"]['explanation'] = "Proved (GM.Props.C08, 33 theorems): line level as before (quote_consumes_marker/_nospace, quote_declines, offset_invariant, offset_invariant_quote, offset_invariant_list, indent_pos_tabfree); block level: quote_first_line, quote_marker_every_line, quote_step_open / quote_step_continue / quote_step_close (one line step of every block parser from related states), quote_driver_close_blocks / quote_driver_open_blocks / quote_driver_line (the driver preserves the relation), nonblank_line_opens_block, quote_prefix_run / quote_prefix_run_nofinalnl (both runs end normally, stores related, original store well shaped - no assumption), quote_prefix_simulation_class / _partial (sources ending with a line feed) quote_prefix_simulation_nofinalnl (last byte not a space), quote_prefix_simulation_noitems / _nolist (no position starts a list item: class C08ClassL, predicate NoItem) - the tree statement, UNCONDITIONAL -, quote_prefix_simulation_lists / _lists_all / quote_prefix_run_lists (class C08ClassF: no blank line; ALL ten parsers, lists included), quote_flags_equal, quote_prefix_simulation_lists_blank / _lists_blank_all / quote_prefix_run_lists_blank, quote_prefix_simulation_union (class C08ClassG: blank lines and lists, no setext underline pattern; store relation FE, GM/Proof/QuoteSimFE*.lean, QuoteSimStatsG.lean, QuoteSimBar.lean), original_run_well_shaped, quote_prefix_simulation_checked. Unary invariants of the original run carried by the simulation's driver walk (GM/Proof/QuoteSimInv*.lean): Document without lines, node 0 nobody's child (UStoreL), no List/ListItem when the list parsers are not in the simulated set (NK), run A's StableL / MidA from the no-panic development (GM/Proof/QuoteSimMid.lean, QuoteSimInvLI.lean), newBlocksOpened leaves a block open (QuoteSimInvNE.lean), blank-line statistics (QuoteSimStats.lean), parser/kind consistency of the open blocks (PKL), kinds never change (KGn), the node Open returns is the fresh node of kind bp.kind (OPK); raw blocks / info / closure segments non-empty in the relation (NodeRel.rawNE/infoNE/closNE); non-raw blocks from package wf0. Full statement kept unproved as def QuotePrefixSimulationAll. Searched: blocks quotesim (tree statement on every tab/CR-free non-blank source of component blocks, 0 failures), blocks quotesimhyp (regression oracle), component quote on HTML."
+PROPS["C08"]['explanation'] = "Proved (GM.Props.C08, 34 theorems): line level as before (quote_consumes_marker/_nospace, quote_declines, offset_invariant, offset_invariant_quote, offset_invariant_list, indent_pos_tabfree); block level: quote_first_line, quote_marker_every_line, quote_step_open / quote_step_continue / quote_step_close (one line step of every block parser from related states), quote_driver_close_blocks / quote_driver_open_blocks / quote_driver_line (the driver preserves the relation), nonblank_line_opens_block, quote_prefix_run / quote_prefix_run_nofinalnl (both runs end normally, stores related, original store well shaped - no assumption), quote_prefix_simulation_class / _partial (sources ending with a line feed) quote_prefix_simulation_nofinalnl (last byte not a space), quote_prefix_simulation_noitems / _nolist (no position starts a list item: class C08ClassL, predicate NoItem) - the tree statement, UNCONDITIONAL -, quote_prefix_simulation_lists / _lists_all / quote_prefix_run_lists (class C08ClassF: no blank line; ALL ten parsers, lists included), quote_flags_equal, quote_prefix_simulation_lists_blank / _lists_blank_all / quote_prefix_run_lists_blank, quote_prefix_simulation_union, quote_setext_close_keeps_flags (class C08ClassG: blank lines and lists, no setext underline pattern; store relation FE, GM/Proof/QuoteSimFE*.lean, QuoteSimStatsG.lean, QuoteSimBar.lean), original_run_well_shaped, quote_prefix_simulation_checked. Unary invariants of the original run carried by the simulation's driver walk (GM/Proof/QuoteSimInv*.lean): Document without lines, node 0 nobody's child (UStoreL), no List/ListItem when the list parsers are not in the simulated set (NK), run A's StableL / MidA from the no-panic development (GM/Proof/QuoteSimMid.lean, QuoteSimInvLI.lean), newBlocksOpened leaves a block open (QuoteSimInvNE.lean), blank-line statistics (QuoteSimStats.lean), parser/kind consistency of the open blocks (PKL), kinds never change (KGn), the node Open returns is the fresh node of kind bp.kind (OPK); raw blocks / info / closure segments non-empty in the relation (NodeRel.rawNE/infoNE/closNE); non-raw blocks from package wf0. Full statement kept unproved as def QuotePrefixSimulationAll. Searched: blocks quotesim (tree statement on every tab/CR-free non-blank source of component blocks, 0 failures), blocks quotesimhyp (regression oracle), component quote on HTML."
 PROPS["C08"]['assumptions'] = ["documents contain no tab and no carriage return (the property's proviso)", 'whole-run theorems only: D does not end with a space (it may or may not end with a line feed) and EITHER no position of D starts a list item (no bullet - * + and no number with . or ) followed by white space or the end; decidable predicate GM.Blocks.NoItem) OR no line of D is blank (decidable predicate GM.Blocks.FL; lists allowed) OR no position of D starts a setext heading underline (decidable predicate GM.Blocks.NoBar; lists and blank lines allowed)', 'inline phase and renderer do not distinguish the two trees beyond the wrapping (searched by component quote)']
 
 # ---- C09 texts after packages indep / convert (notes/status_indep.md, notes/status_convert.md) ----
